@@ -3742,6 +3742,10 @@ class DecVar(Vars):
             msg += f'{solution.solver} solution status: {solution.status}.'
             raise RuntimeError(msg)
 
+        if self.ro_first < 0:
+            raise RuntimeError('The decision variable is not a part of the '
+                               'solved model.')
+
         var_sol = dro_model.ro_model.rc_model.vars[1].get()
         edict = event_dict(self.event_adapt)
         if rvar is None:
